@@ -161,12 +161,28 @@ func verifHosts(l *roundRobinLoadBalancer) []*Host { return l.hosts.Load().([]*H
 
 // Session.Send: either the request is registered on one backend connection (one more send) or an
 // error is returned and nothing was sent. No reply is produced synchronously.
-//@ func proxycore.Session.Send [C01, C04, C05]
+//@ loop proxycore.connPool.leastBusyConn #1
+//@   invariant 0 <= idx && idx < len(p.conns) && count == len(p.conns)
+
+//@ func proxycore.connPool.leastBusyConn [C17, C18]
+//@   requires p != nil && p.connsMu != nil
+//@   modifies nothing
+
+// The lookup in the pool table (a sync.Map, opaque to the engine): nil, or a connection created by
+// connPool.connect (ConnectClient's postcondition). Assumed; its writers are checked to file only pools.
+//@ func proxycore.Session.leastBusyConn
 //@   trusted
+//@   ensures connOK(result)
+//@   modifies nothing
+
+// Session.Send: the request is handed to the least busy connection of the host's pool, or refused.
+// $sends counts the requests a backend connection accepted (ClientConn.Send returned nil).
+//@ func proxycore.Session.Send [C01, C04, C05]
 //@   requires s != nil && host != nil
+//@   after proxycore.ClientConn.Send#1 set $sends = $sends + ite(result == nil, 1, 0)
 //@   ensures result == nil ==> $sends == old($sends) + 1
 //@   ensures result != nil ==> $sends == old($sends)
-//@   modifies nothing, $sends
+//@   modifies any(proxycore.ClientConn).inflight, any(proxycore.pendingRequests).$has, any(proxycore.pendingRequests).$tag, any(proxycore.pendingRequests).$val, $sends
 
 // QueryPlan.Next (abstractly): a plan has a finite number of hosts left; each non-nil result uses one.
 //@ iface proxycore.QueryPlan.Next [C05]
